@@ -3,7 +3,9 @@ package main
 // C01 (reads return the latest write through every layer) and C08 (sequence numbers strictly
 // increase): sequential programs over the embedded API.
 // Header: memsize=<bytes> maxmem=<n>.  Lines: put K V | del K | get K | batch n | commit n |
-// rollback n (each followed by n lines "p K V" / "d K") | flush | reopen | layers
+// rollback n (each followed by n lines "p K V" / "d K") | flush | reopen | layers |
+// mbatch n (ApplyBatch with merge operands: followed by up to n lines "m K V" / "p K V" / "d K";
+// the lines that follow and start with m, p or d are taken, so that a shrunk case stays readable)
 // Observations (mirrored by model/drv_c01.ml): W ok last=<seq> | G v:<val>|notfound |
 // T rolledback | O last=<seq> (after reopen) | X lostlog | L/l layer dump | N <next seq>
 
@@ -30,8 +32,28 @@ func init() {
 }
 
 type bop struct {
-	del  bool
-	k, v []byte
+	del   bool
+	merge bool // merge operand (mbatch only): logged, no effect on any table
+	k, v  []byte
+}
+
+// the entries of an mbatch line: at most n of the directly following m/p/d lines
+func parseMops(c *Case, i int, n int) []bop {
+	var ops []bop
+	for j := 1; j <= n && i+j < len(c.Lines); j++ {
+		l := c.Lines[i+j]
+		switch {
+		case l[0] == "m" && len(l) == 3:
+			ops = append(ops, bop{merge: true, k: tok(l[1]), v: tok(l[2])})
+		case l[0] == "p" && len(l) == 3:
+			ops = append(ops, bop{k: tok(l[1]), v: tok(l[2])})
+		case l[0] == "d" && len(l) == 2:
+			ops = append(ops, bop{del: true, k: tok(l[1])})
+		default:
+			return ops
+		}
+	}
+	return ops
 }
 
 func parseBops(c *Case, i int, n int) []bop {
@@ -111,8 +133,13 @@ func runC01(c *Case, out func(string)) {
 	layersTouched := map[string]bool{}
 	nOverwriteOlder := 0
 	nontrivialOps := 0
+	nMerge := 0
 	apply := func(ops []bop) {
 		for _, o := range ops {
+			if o.merge {
+				// a merge operand is logged and acknowledged but no read may change
+				continue
+			}
 			if o.del {
 				ref[string(o.k)] = nil
 			} else {
@@ -182,6 +209,32 @@ func runC01(c *Case, out func(string)) {
 				out("W ok last=" + num(lastSeq(e)))
 				if n > 0 {
 					checkSeq("batch")
+				}
+			}
+		case "mbatch":
+			n, _ := strconv.Atoi(l[1])
+			ops := parseMops(c, i, n)
+			i += len(ops)
+			var es []*wal.Entry
+			for _, o := range ops {
+				switch {
+				case o.merge:
+					es = append(es, &wal.Entry{Type: wal.OpTypeMerge, Key: o.k, Value: o.v})
+					nMerge++
+				case o.del:
+					es = append(es, &wal.Entry{Type: wal.OpTypeDelete, Key: o.k})
+				default:
+					es = append(es, &wal.Entry{Type: wal.OpTypePut, Key: o.k, Value: o.v})
+				}
+			}
+			if err := e.ApplyBatch(es); err != nil {
+				out("W err:" + werrShort(err))
+			} else {
+				apply(ops)
+				out("W ok last=" + num(lastSeq(e)))
+				if len(ops) > 0 {
+					// an acknowledged write, also when every entry is a merge operand
+					checkSeq("batch with merge operands")
 				}
 			}
 		case "commit", "rollback":
@@ -300,7 +353,11 @@ func runC01(c *Case, out func(string)) {
 			if after < before {
 				fail(fmt.Sprintf("C08: last sequence went from %d to %d across a clean reopen", before, after))
 			}
-			prevLast = after
+			// the bar for the next write stays at the highest number acknowledged so far: a
+			// counter restored too low shows up again at the first write after the reopen
+			if after > prevLast {
+				prevLast = after
+			}
 		case "compact":
 			// TriggerCompaction runs one compaction cycle on the SSTable directory. The running
 			// storage manager keeps reading its own (stale) reader list, a reopen sees the
@@ -364,7 +421,7 @@ func runC01(c *Case, out func(string)) {
 	if oracleOK {
 		out("ORACLE ok")
 	}
-	out(fmt.Sprintf("META ops=%d layers=%d overwrites_of_older=%d nontrivial=%d", len(c.Lines), len(layersTouched), nOverwriteOlder, nt))
+	out(fmt.Sprintf("META ops=%d layers=%d overwrites_of_older=%d merge_entries=%d nontrivial=%d", len(c.Lines), len(layersTouched), nOverwriteOlder, nMerge, nt))
 }
 
 func werrShort(err error) string {
@@ -413,6 +470,20 @@ func genBops(w *bufio.Writer, r *rand.Rand, n, nkeys int) {
 	}
 }
 
+// the entries of an mbatch: merge operands, now and then mixed with puts and deletes
+func genMops(w *bufio.Writer, r *rand.Rand, n, nkeys int, mixed bool) {
+	for j := 0; j < n; j++ {
+		switch {
+		case mixed && r.Intn(3) == 0:
+			fmt.Fprintf(w, "p %s %s\n", mkTok(genKey(r, nkeys)), genVal(r))
+		case mixed && r.Intn(6) == 0:
+			fmt.Fprintf(w, "d %s\n", mkTok(genKey(r, nkeys)))
+		default:
+			fmt.Fprintf(w, "m %s %s\n", mkTok(genKey(r, nkeys+1)), genVal(r))
+		}
+	}
+}
+
 func genProgram(w *bufio.Writer, r *rand.Rand, id string, nops int, reopenW int) {
 	memsize := []int{120, 200, 400, 1000, 4096, 100000}[r.Intn(6)]
 	fmt.Fprintf(w, "case %s memsize=%d maxmem=1000 sync=%s\n", id, memsize, []string{"immediate", "immediate", "none", "batch"}[r.Intn(4)])
@@ -426,7 +497,7 @@ func genProgram(w *bufio.Writer, r *rand.Rand, id string, nops int, reopenW int)
 			}
 			continue
 		}
-		switch pick(r, 10, 4, 8, 2, 3, 1, 3, reopenW, 1) {
+		switch pick(r, 10, 4, 8, 2, 3, 1, 3, reopenW, 1, 2) {
 		case 0:
 			fmt.Fprintf(w, "put %s %s\n", mkTok(genKey(r, nkeys)), genVal(r))
 		case 1:
@@ -451,6 +522,12 @@ func genProgram(w *bufio.Writer, r *rand.Rand, id string, nops int, reopenW int)
 			fmt.Fprintf(w, "reopen\n")
 		case 8:
 			fmt.Fprintf(w, "layers\n")
+		case 9:
+			// ApplyBatch with merge operands (n = 0: the empty batch is accepted and only reads
+			// the counter); one in three mixes them with puts and deletes
+			n := r.Intn(4)
+			fmt.Fprintf(w, "mbatch %d\n", n)
+			genMops(w, r, n, nkeys, r.Intn(3) == 0)
 		}
 	}
 	fmt.Fprintf(w, "layers\n")
@@ -534,9 +611,75 @@ func genSched(w *bufio.Writer, r *rand.Rand, id string) {
 	fmt.Fprintf(w, "put %s %s\nend\n", mkTok(genKey(r, 4)), val())
 }
 
+// a merge-only batch is the LAST write before a close and reopen (so the highest number in
+// the log belongs to entries that recovery has nothing to rebuild from), then more writes; the
+// final close of the case is the crash-free close. Variants: a flush (log rotation) before or
+// after the merge batch, several rounds, a second reopen right away, a get between.
+func genMergeLast(w *bufio.Writer, r *rand.Rand, id string) {
+	fmt.Fprintf(w, "case %s memsize=%d maxmem=1000 sync=%s\n", id, []int{120, 400, 4096, 100000}[r.Intn(4)],
+		[]string{"immediate", "none", "batch"}[r.Intn(3)])
+	nkeys := 2 + r.Intn(4)
+	write := func() {
+		switch pick(r, 6, 2, 2, 2) {
+		case 0:
+			fmt.Fprintf(w, "put %s %s\n", mkTok(genKey(r, nkeys)), genVal(r))
+		case 1:
+			fmt.Fprintf(w, "del %s\n", mkTok(genKey(r, nkeys)))
+		case 2:
+			n := 1 + r.Intn(3)
+			fmt.Fprintf(w, "batch %d\n", n)
+			genBops(w, r, n, nkeys)
+		case 3:
+			n := 1 + r.Intn(3)
+			fmt.Fprintf(w, "commit %d\n", n)
+			genBops(w, r, n, nkeys)
+		}
+	}
+	for rounds := 1 + r.Intn(3); rounds > 0; rounds-- {
+		for k := r.Intn(4); k > 0; k-- {
+			write()
+		}
+		if r.Intn(3) == 0 {
+			fmt.Fprintf(w, "flush\n")
+		}
+		n := 1 + r.Intn(3)
+		fmt.Fprintf(w, "mbatch %d\n", n)
+		genMops(w, r, n, nkeys, false)
+		switch r.Intn(5) {
+		case 0:
+			fmt.Fprintf(w, "flush\n")
+		case 1:
+			fmt.Fprintf(w, "get %s\n", mkTok(genKey(r, nkeys+1)))
+		case 2:
+			fmt.Fprintf(w, "mbatch 0\n")
+		}
+		fmt.Fprintf(w, "reopen\n")
+		if r.Intn(4) == 0 {
+			fmt.Fprintf(w, "reopen\n")
+		}
+		for k := 1 + r.Intn(3); k > 0; k-- {
+			write()
+		}
+	}
+	if r.Intn(2) == 0 {
+		// the case ends with a merge-only batch and the crash-free close
+		fmt.Fprintf(w, "mbatch 1\n")
+		genMops(w, r, 1, nkeys, false)
+	}
+	fmt.Fprintf(w, "layers\n")
+	for k := 0; k < nkeys+1; k++ {
+		fmt.Fprintf(w, "get %s\n", mkTok(genKey(r, k+1)))
+	}
+	fmt.Fprintf(w, "end\n")
+}
+
 func genC08(w *bufio.Writer, seed int64, n int, tier string) {
 	r := rand.New(rand.NewSource(seed*15485863 + 8))
 	for ci := 0; ci < n; ci++ {
+		if ci%10 == 3 {
+			genMergeLast(w, r, fmt.Sprintf("c08-%d-%d", seed, ci))
+			continue
+		}
 		if ci%5 == 4 {
 			genSched(w, r, fmt.Sprintf("c08-%d-%d", seed, ci))
 			continue
